@@ -148,12 +148,7 @@ def f1_effects(ctx):
                         if any(x in ('IOError', 'OSError', 'FileNotFoundError') for x in excs):
                             # the try body must (only) attempt to load the inverse file
                             calls = [c for s_ in node.body for c in ast.walk(s_) if isinstance(c, ast.Call)]
-                            loads = []
-                            for c in calls:
-                                for t in repo.resolve_call(gfi, c):
-                                    for c2 in t.calls():
-                                        if q.method_name(c2) == '_find_path' and any(const_value(a) == name for a in c2.args):
-                                            loads.append(t)
+                            loads = [c for c in calls if _reaches_lookup(repo, gfi, c, name, {}, 0)]
                             if loads:
                                 ok = True
                             else:
@@ -161,6 +156,34 @@ def f1_effects(ctx):
             ctx.check(ok, 'C04.F2', e.fi, e.node, '%s is created only when it is absent (guard on the call chain %s)' % (name, e.chain()),
                       '%s can be written although it exists: %s (call chain %s)' % (name, why, e.chain()))
     return f, effs
+
+
+def _reaches_lookup(repo, fi, call, name, env, depth):
+    """Does `call` (made in `fi`, with `env` = constant values of fi's parameters) reach a `_find_path(<name>)` within three call levels? File names may travel
+    through parameters of helpers (`_load_matrix(name)`)."""
+    def val(e):
+        c = const_value(e)
+        if c is None and isinstance(e, ast.Name):
+            return env.get(e.id)
+        return c
+    if q.method_name(call) == '_find_path':
+        return any(val(a) == name for a in call.args)
+    if depth >= 3:
+        return False
+    try:
+        tgs = repo.resolve_call(fi, call)
+    except Exception:
+        tgs = []
+    for t in tgs:
+        env2 = {}
+        for k_, p_ in enumerate(t.real_params):
+            a_ = q.arg(call, k_, p_)
+            if a_ is not None and val(a_) is not None:
+                env2[p_] = val(a_)
+        for c2 in t.calls():
+            if _reaches_lookup(repo, t, c2, name, env2, depth + 1):
+                return True
+    return False
 
 
 def t1_t2_names(ctx):
